@@ -171,6 +171,7 @@ def main():
     ap.add_argument("--force", default="", help="run these properties on every mutant (in addition to the anchored ones)")
     ap.add_argument("--lines", default="", help="lo-hi: restrict to this line range")
     ap.add_argument("--max", type=int, default=0)
+    ap.add_argument("--retry", default="", help="a previous result file: run only the mutants it lists as missed")
     ap.add_argument("--jobs", type=int, default=16)
     ap.add_argument("--out", default=os.path.join(VERIF, "selftest", "mutscan.json"))
     a = ap.parse_args()
@@ -196,6 +197,9 @@ def main():
                 props = sorted(set(props) | set(a.force.split(",")))
             if props:
                 jobs.append((m, props))
+    if a.retry:
+        prev = {(r["file"], r["a"], r["b"], r["new"]) for r in json.load(open(a.retry))["results"] if r["status"] == "missed"}
+        jobs = [(m, p) for m, p in jobs if (m["file"], m["a"], m["b"], m["new"]) in prev]
     if a.max and len(jobs) > a.max:
         step = len(jobs) / a.max
         jobs = [jobs[int(i * step)] for i in range(a.max)]
